@@ -1,13 +1,20 @@
 (* Semantics against which degree claims are judged at graph level (C07).
    Every cell holds its value AS A FUNCTION OF THE VALUATION of the
-   indeterminates (signals, component ports; parameters of functions); signals
-   and component ports are independent indeterminates whatever is assigned to
-   them, template parameters are constants.  Only scalar, array-free
-   expressions denote.  The step relation over-approximates the executions
-   whose control flow does not depend on the valuation: an assignment to a
-   local stores the denotation of its right-hand side, a phi copies one of its
-   arguments (the same one for every valuation).  Joins under signal-dependent
-   control are the known finding C07-ctl-merge and are outside this relation. *)
+   indeterminates (signals, component ports; parameters of functions), and, for
+   arrays, of the position: a cell is a FAMILY  index list -> valuation -> Z
+   (a scalar is a family that ignores the index; an element that was never
+   assigned is 0).  Signals and component ports are independent indeterminates
+   whatever is assigned to them, template parameters are constants.
+     - an inline array [e0, e1, ..] is the family  j :: rest |-> e_j at rest,
+     - an access x[i1]..[ik] selects, for every valuation, the sub-family at the
+       values of the index expressions (a component port c.name is selected by
+       an arbitrary code of the name: nothing depends on which),
+     - an element-wise update replaces the sub-family at the index values.
+   The step relation over-approximates the executions whose control flow does
+   not depend on the valuation: an assignment to a local stores the denotation
+   of its right-hand side, a phi copies one of its arguments (the same one for
+   every valuation).  Joins under signal-dependent control are the known
+   finding C07-ctl-merge and are outside this relation. *)
 From Coq Require Import ZArith List Bool.
 Require Import Model.Base Model.Ir Model.Propagate Model.Justify Model.DegJustify Spec.PolyDeg.
 Import ListNotations.
@@ -19,14 +26,38 @@ Variable p : Z.
 Variable sem2 : infix_op -> Z -> Z -> Z.      (* value of `a op b` *)
 Variable sem1 : prefix_op -> Z -> Z.
 Variable call_sem : ident -> list Z -> Z.     (* functions are functions of their arguments *)
+Variable name_code : ident -> Z.              (* position of a component port *)
 
-Definition fstore := vname -> option (V -> Z).
+Definition fam := list Z -> V -> Z.
+Definition fstore := vname -> option fam.
+Definition zero_fam : fam := fun _ _ => 0.
 
-Definition fupd (s : fstore) (x : vname) (F : option (V -> Z)) : fstore :=
+Definition fupd (s : fstore) (x : vname) (F : option fam) : fstore :=
   fun y => if vname_eqb x y then F else s y.
 
-Fixpoint den (s : fstore) (e : expr) {struct e} : option (V -> Z) :=
-  let fix den_list (es : list expr) : option (list (V -> Z)) :=
+(* i = a ++ rest *)
+Fixpoint prefix_of (a i : list Z) : option (list Z) :=
+  match a, i with
+  | [], _ => Some i
+  | x :: ta, y :: ti => if x =? y then prefix_of ta ti else None
+  | _ :: _, [] => None
+  end.
+
+Definition array_fam (Fs : list fam) : fam :=
+  fun i rho =>
+    match i with
+    | [] => 0
+    | j :: rest => if j <? 0 then 0 else match nth_error Fs (Z.to_nat j) with Some F => F rest rho | None => 0 end
+    end.
+
+Definition access_fam (A : fam) (Is : list (V -> Z)) : fam :=
+  fun i rho => A (map (fun Ix : V -> Z => Ix rho) Is ++ i) rho.
+
+Definition update_fam (A : fam) (Is : list (V -> Z)) (R : fam) : fam :=
+  fun i rho => match prefix_of (map (fun Ix : V -> Z => Ix rho) Is) i with Some rest => R rest rho | None => A i rho end.
+
+Fixpoint den (s : fstore) (e : expr) {struct e} : option fam :=
+  let fix den_list (es : list expr) : option (list fam) :=
       match es with
       | [] => Some []
       | x :: tl => match den s x, den_list tl with
@@ -34,27 +65,51 @@ Fixpoint den (s : fstore) (e : expr) {struct e} : option (V -> Z) :=
                    | _, _ => None
                    end
       end in
+  let fix den_acc (acc : list (access expr)) : option (list (V -> Z)) :=
+      match acc with
+      | [] => Some []
+      | AIdx x :: tl => match den s x, den_acc tl with
+                        | Some Ix, Some Is => Some (Ix [] :: Is)
+                        | _, _ => None
+                        end
+      | AComp n :: tl => match den_acc tl with
+                         | Some Is => Some ((fun _ => name_code n) :: Is)
+                         | None => None
+                         end
+      end in
   match e with
-  | ENum z _ => Some (fun _ => z mod p)
+  | ENum z _ => Some (fun _ _ => z mod p)
   | EVar v _ => s v
   | EInfix op l r _ =>
     match den s l, den s r with
-    | Some F, Some G => Some (fun rho => sem2 op (F rho) (G rho))
+    | Some F, Some G => Some (fun i rho => sem2 op (F i rho) (G i rho))
     | _, _ => None
     end
   | EPrefix op x _ =>
-    match den s x with Some F => Some (fun rho => sem1 op (F rho)) | None => None end
+    match den s x with Some F => Some (fun i rho => sem1 op (F i rho)) | None => None end
   | ESwitch c t f _ =>
     match den s c, den s t, den s f with
-    | Some C, Some T, Some F => Some (fun rho => if C rho =? 0 then F rho else T rho)
+    | Some C, Some T, Some F => Some (fun i rho => if C [] rho =? 0 then F i rho else T i rho)
     | _, _, _ => None
     end
   | ECall n args _ =>
     match den_list args with
-    | Some Fs => Some (fun rho => call_sem n (map (fun F => F rho) Fs))
+    | Some Fs => Some (fun _ rho => call_sem n (map (fun F : fam => F [] rho) Fs))
     | None => None
     end
-  | EArray _ _ | EAccess _ _ _ | EUpdate _ _ _ _ | EPhi _ _ => None
+  | EArray vs _ =>
+    match den_list vs with Some Fs => Some (array_fam Fs) | None => None end
+  | EAccess v acc _ =>
+    match s v, den_acc acc with
+    | Some A, Some Is => Some (access_fam A Is)
+    | _, _ => None
+    end
+  | EUpdate v acc rhe _ =>
+    match s v, den_acc acc, den s rhe with
+    | Some A, Some Is, Some R => Some (update_fam A Is R)
+    | _, _, _ => None
+    end
+  | EPhi _ _ => None
   end.
 
 Definition is_phi_e (e : expr) : bool := match e with EPhi _ _ => true | _ => false end.
